@@ -1,5 +1,5 @@
 """C30 — emu-sv gradients: three structural clauses (WGDIV, GRADPATH, AUTOGRAD)."""
-from ..rules import grad
+from ..rules import kernels, grad
 
 META = {
     "title": "emu-sv gradients equal finite differences of the emulated results",
@@ -33,3 +33,4 @@ def check(ctx):
     ctx.floor("WGDIV", 3)
     ctx.floor("GRADPATH", 30)
     ctx.floor("AUTOGRAD", 10)
+    kernels.pchip_evaluation(ctx)
